@@ -62,6 +62,11 @@ class Model:
         self.ctx.analysed_fns.add(fn.path)
         return self.w.q(fn)
 
+    def qi(self, fn):
+        """inlined view (private helpers of the same crate spliced in)"""
+        self.ctx.analysed_fns.add(fn.path)
+        return self.w.qi(fn)
+
     def book_fn(self, name):
         return self.prog.method("OrderBook", name, crate="bourse_book")
 
